@@ -40,7 +40,12 @@ RULE = (
     "carry the reference bytes of the second value. kind=wire: a "
     "real client sends 2-6 messages at once on ONE peer connection (send_message from separate tasks and "
     "queue_message, sizes up to 400 KB, plain / obfuscated) while the scripted peer does not read, so the sends "
-    "really suspend; the byte stream the peer then reads must parse into exactly the messages sent. Separately an "
+    "really suspend; the byte stream the peer then reads must parse into exactly the messages sent. kind=switch: a "
+    "real incoming PeerConnection (obfuscated or plain port) reads, through a real StreamReader and its real reader "
+    "loop, a reference-encoded stream: init frame, then -- after the library's own set_connection_state, which "
+    "turns obfuscation off for D / F connections -- 1-9 generated frames of that type (or raw ticket/offset/data for "
+    "F), all at once, back to back in one segment, per frame, or cut anywhere down to 1-7 byte segments; every frame "
+    "delivered exactly once, equal, in order, connection still CONNECTED. Separately an "
     "obfuscation sweep: every length 0..300 (thorough 0..1100) x 10 keys x {zero, random} data, real encode/decode "
     "vs the reference. evaluations = values + obfuscation (length,key) cells. distinct_nontrivial = distinct "
     "(class, presence pattern, boundary-class vector of the fields) among values with >= 1 non-default field, plus "
@@ -88,15 +93,18 @@ MIN_OBS = {
               'r5_evals': 9000, 'r6_evals': 9000, 'r6_obfuscated_evals': 1000, 'obf_cases': 3000,
               'classes_covered': 158, 'vectors_verified': 300, 'r7_evals': 8000, 'r8_evals': 8000,
               'r8_list_mutations': 1000, 'r6_reencode_evals': 7000, 'wire_runs': 50, 'wire_frames_parsed': 150,
-              'wire_sends_suspended': 30},
+              'wire_sends_suspended': 30, 'switch_runs': 56, 'switch_obf_to_plain_runs': 28,
+              'switch_frames_delivered': 120},
     'thorough': {'values_checked': 450000, 'r1_evals': 450000, 'r2_evals': 450000, 'r3_evals': 450000,
                  'r4_evals': 450000, 'r5_evals': 450000, 'r6_evals': 450000, 'r6_obfuscated_evals': 50000,
                  'obf_cases': 11000, 'classes_covered': 158, 'vectors_verified': 300, 'r7_evals': 400000,
                  'r8_evals': 400000, 'r8_list_mutations': 80000, 'r6_reencode_evals': 350000,
-                 'wire_runs': 2500, 'wire_frames_parsed': 8000, 'wire_sends_suspended': 1500},
+                 'wire_runs': 2500, 'wire_frames_parsed': 8000, 'wire_sends_suspended': 1500,
+                 'switch_runs': 2200, 'switch_obf_to_plain_runs': 1000, 'switch_frames_delivered': 5000},
 }
 QUICK_SCALE = 13      # the quick tier was enlarged by this factor after MIN_OBS['quick'] was measured
-QUICK_FIXED = ('classes_covered', 'obf_cases', 'wire_runs', 'wire_frames_parsed', 'wire_sends_suspended')      # counters of fixed-size parts (coverage, enumerations): not scaled
+QUICK_FIXED = ('classes_covered', 'obf_cases', 'wire_runs', 'wire_frames_parsed', 'wire_sends_suspended',
+               'switch_runs', 'switch_obf_to_plain_runs', 'switch_frames_delivered')      # counters of fixed-size parts (coverage, enumerations): not scaled
 SHARD_TIMEOUT = {'quick': 600, 'thorough': 3600}
 WHAT_FAILS = {
     'R1-bytes': 'serialised bytes differ from what the pinned protocol layout prescribes',
@@ -110,6 +118,10 @@ WHAT_FAILS = {
                'returns a different value after a previously decoded message was mutated',
     'R6-conn:reencode': 'a message object changed in place and encoded again through a connection goes out with '
                         'bytes that are not those of its current field values',
+    'wire:inbound:frames-after-obfuscation-switch': 'frames that follow the obfuscated init message of a D / F '
+        'connection accepted on the obfuscated port (plain from then on) are lost, garbled or end the connection',
+    'wire:inbound:frames-after-init': 'frames that follow the init message of an accepted connection that keeps '
+        'its framing are lost, garbled or end the connection',
     'obf:encode': 'obfuscation.encode disagrees with the reference obfuscation',
     'obf:decode': 'obfuscation.decode does not invert the (reference or real) obfuscation',
 }
@@ -118,7 +130,8 @@ VALUES_PER_CLASS = {'quick': 800, 'thorough': 60000}
 VALUE_BATCH = {'quick': 60, 'thorough': 3000}
 OBF_MAX_LEN = {'quick': 300, 'thorough': 1100}
 OBF_BATCHES = {'quick': 14, 'thorough': 44}
-WIRE_RUNS = {'quick': 60, 'thorough': 3000}      # concurrent sends on one real connection under back-pressure
+WIRE_RUNS = {'quick': 60, 'thorough': 3000}
+SWITCH_RUNS = {'quick': 64, 'thorough': 2400}    # inbound frames around the obfuscation switch (real reader loop)      # concurrent sends on one real connection under back-pressure
 
 
 # ---------------------------------------------------------------------------------------
@@ -139,6 +152,8 @@ def cases(tier: str, seed: int) -> list[dict]:
                     'len_max': OBF_MAX_LEN[tier]})
     for i in range(WIRE_RUNS[tier]):
         out.append({'kind': 'wire', 'tier': tier, 'seed': seed, 'i': i})
+    for i in range(SWITCH_RUNS[tier]):
+        out.append({'kind': 'switch', 'tier': tier, 'seed': seed, 'i': i})
     # spread heavy classes / obfuscation batches evenly over the shards, deterministically
     random.Random(f'{seed}:C01:order').shuffle(out)
     for idx, params in enumerate(out):
@@ -773,6 +788,9 @@ def run_case(params: dict) -> dict:
     if params['kind'] == 'wire':
         from ..wirecases import run_wire_case
         run_wire_case(res, params)
+    elif params['kind'] == 'switch':
+        from ..wirecases import run_switch_case
+        run_switch_case(res, params)
     elif params['kind'] == 'msg':
         _run_msg(params, res, env)
     else:
